@@ -210,36 +210,40 @@ def summarise_arr(orig, ph, name, out, i, iname, n, what):
             mp[iname] = n - 1
             return T.subst(o, mp)
         return Arr(tuple(T.subst(d, {iname: n - 1}) for d in out.shape), fn, out.dtype, out.kind)
-    # R2: out = in + [j0 == i] * (g - in)   with g free of in
-    ind = T.mk_ind(T.cmp_cond("==", idx[0], i))
-    g = None
-    if ind.terms and len(ind.terms) == 1:
-        ia = ind.terms[0][0][0][0]
-        # split delta = ind * B
-        B = ZERO
-        ok = True
-        for m, c in delta.terms:
-            d = dict(m)
-            if d.get(ia, 0) != 1:
-                ok = False
-                break
-            rest = tuple(x for x in m if x[0] is not ia)
-            B = B + Poly({rest: c})
-        if ok:
-            g = B + pin
-            if mentions(g, name):
-                g = None
-    if g is not None and A.dim_eq(orig.shape[0], n):
+    # R2: out = in + [j_a == i] * (g - in)   with g free of in, for the axis a the loop index addresses (rows, columns, ...)
+    for axis in range(len(idx)):
+        if not A.dim_eq(orig.shape[axis], n):
+            continue
+        ind = T.mk_ind(T.cmp_cond("==", idx[axis], i))
+        g = None
+        if ind.terms and len(ind.terms) == 1:
+            ia = ind.terms[0][0][0][0]
+            # split delta = ind * B
+            B = ZERO
+            ok = True
+            for m, c in delta.terms:
+                d = dict(m)
+                if d.get(ia, 0) != 1:
+                    ok = False
+                    break
+                rest = tuple(x for x in m if x[0] is not ia)
+                B = B + Poly({rest: c})
+            if ok:
+                g = B + pin
+                if mentions(g, name):
+                    g = None
+        if g is None:
+            continue
         guard = GUARD[0]
         ofn2 = orig.fn
 
-        def fn(*jj, g=g):
+        def fn(*jj, g=g, axis=axis):
             mp = {nm: P(j) for nm, j in zip(names, jj)}
-            mp[iname] = P(jj[0])
+            mp[iname] = P(jj[axis])
             v = T.subst(g, mp)
             if guard is not None:
                 # only the selected positions are visited: the others keep their value
-                return T.mk_ite(guard(P(jj[0])), v, P(ofn2(*jj)))
+                return T.mk_ite(guard(P(jj[axis])), v, P(ofn2(*jj)))
             return v
         return Arr(orig.shape, fn, orig.dtype, out.kind, origin=orig.origin)
     raise ModelError("loop-carried array '%s' matches neither the fold nor the indexed-store rule" % what)
@@ -249,6 +253,19 @@ def exec_for(I, s, env):
     it = I.ev(s.iter, env)
     if isinstance(it, dict):
         it = list(it)
+    if type(it).__name__ == "CountIter":
+        if not isinstance(s.target, ast.Name):
+            raise ModelError("itertools.count with a structured loop target")
+        # an unbounded counter loop is a while loop:  x = start - step; while True: x += step; <body>
+        nm = s.target.id
+        I.assign(s.target, I.binop(ast.Sub, it.start, it.step), env)
+        inc = ast.AugAssign(target=ast.Name(id=nm, ctx=ast.Store()), op=ast.Add(), value=ast.Constant(value=it.step if isinstance(it.step, int) else 1))
+        if not isinstance(it.step, int):
+            raise ModelError("itertools.count with a symbolic step")
+        w = ast.While(test=ast.Constant(value=True), body=[inc] + list(s.body), orelse=list(s.orelse))
+        ast.copy_location(w, s)
+        ast.fix_missing_locations(w)
+        return exec_while(I, w, env)
     if isinstance(it, (list, tuple, range, set)):
         broke = False
         for x in it:
@@ -417,14 +434,17 @@ def symbolic_for(I, s, env, it, n):
             break
         body.pop(0)
     pathlen = len(I.path)
-    try:
-        I.exec_block(body, env)
-    except T_Continue:
-        pass
-    except T_Break:
-        raise ModelError("break inside a summarised loop")
-    if len(I.path) != pathlen:
-        raise ModelError("data-dependent branch inside a summarised loop")
+    if rows:
+        try:
+            I.exec_block(body, env)
+        except T_Continue:
+            pass
+        except T_Break:
+            raise ModelError("break inside a summarised loop")
+        if len(I.path) != pathlen:
+            raise ModelError("data-dependent branch inside a summarised loop that writes through row views")
+    else:
+        _run_body_merging(I, body, env, ph, saved, ph_names, pathlen)
     for tname, pos, parent, bound in rows:
         # write the row back: X[i] = row   (then summarised by the indexed-store rule)
         rowv = env.lookup(tname)
@@ -441,6 +461,118 @@ def symbolic_for(I, s, env, it, n):
     finally:
         GUARD[0] = None
     I.exec_block(s.orelse, env)
+
+
+def _install(env, ph, saved):
+    """(re-)install the placeholder state of the written locations"""
+    for key, (p, pname) in ph.items():
+        if key[0] == "n":
+            nm = key[1]
+            if isinstance(p, LoopList):
+                p.appended[:] = []
+                set_name(env, nm, p)
+            else:
+                set_name(env, nm, p.view() if isinstance(p, Arr) else p)
+        else:
+            o, _orig = saved[key]
+            o.fields[key[2]] = p.view() if isinstance(p, Arr) else p
+
+
+def _capture(env, ph, saved):
+    out = {}
+    for key, (p, pname) in ph.items():
+        if key[0] == "n":
+            if isinstance(p, LoopList):
+                if env.lookup(key[1]) is not p:
+                    raise ModelError("list '%s' is rebound inside the loop" % key[1])
+                out[key] = list(p.appended)
+            else:
+                v = env.lookup(key[1])
+                out[key] = v.copy() if isinstance(v, Arr) else v
+        else:
+            o, _orig = saved[key]
+            v = o.fields[key[2]]
+            out[key] = v.copy() if isinstance(v, Arr) else v
+    return out
+
+
+def _ite_value(c, a, b, what):
+    if isinstance(a, Arr) and isinstance(b, Arr):
+        if a.ndim != b.ndim or not all(A.dim_eq(x, y) for x, y in zip(a.shape, b.shape)):
+            raise ModelError("branches of a summarised loop give '%s' different shapes" % what)
+        af, bf = a.fn, b.fn
+        return Arr(a.shape, lambda *idx: T.mk_ite(c, P(af(*idx)), P(bf(*idx))), a.dtype if a.dtype == b.dtype else "real", a.kind)
+    if isinstance(a, (Poly, int, float)) and isinstance(b, (Poly, int, float)) and not isinstance(a, bool) and not isinstance(b, bool):
+        return T.mk_ite(c, P(a), P(b))
+    if a is b:
+        return a
+    raise ModelError("branches of a summarised loop give '%s' values that cannot be merged" % what)
+
+
+def _run_body_merging(I, body, env, ph, saved, ph_names, pathlen):
+    """execute the loop body once per data-dependent path (if / else on a condition of the loop index), every path from
+    the same placeholder state, and merge the written locations with if-then-else terms"""
+    outer = (I.decisions, I.pos)
+    base_path, base_assumed = list(I.path), set(I.assumed)
+    local = []
+    results = []
+    try:
+        while True:
+            I.decisions, I.pos = local, 0
+            I.path, I.assumed = list(base_path), set(base_assumed)
+            _install(env, ph, saved)
+            try:
+                I.exec_block(body, env)
+            except T_Continue:
+                pass
+            except T_Break:
+                raise ModelError("break inside a summarised loop")
+            conds = list(I.path[pathlen:])
+            if len(results) >= 8:
+                raise ModelError("too many data-dependent paths inside a summarised loop")
+            for c in conds:
+                if any(mentions(C(c), pn) for pn in ph_names):
+                    raise ModelError("branch condition of a summarised loop depends on loop-carried state")
+            results.append((conds, _capture(env, ph, saved)))
+            d = local[:I.pos]
+            while d and d[-1] is False:
+                d.pop()
+            if not d:
+                break
+            d[-1] = False
+            local = d
+    finally:
+        I.decisions, I.pos = outer
+        I.path, I.assumed = base_path, base_assumed
+    if len(results) == 1:
+        # a single path: the state left by the run is the result (nothing to merge)
+        return
+    # merge, last path as the default
+    merged = results[-1][1]
+    for conds, state in reversed(results[:-1]):
+        c = T.c_and(*[C(x) for x in conds]) if conds else T.TRUE
+        new = {}
+        for key in state:
+            a, b = state[key], merged[key]
+            if isinstance(a, list) or isinstance(b, list):
+                if not (isinstance(a, list) and isinstance(b, list) and len(a) == len(b)):
+                    raise ModelError("branches of a summarised loop append a different number of items")
+                new[key] = [_ite_value(c, x, y, str(key)) for x, y in zip(a, b)]
+            else:
+                new[key] = _ite_value(c, a, b, str(key))
+        merged = new
+    # write the merged state back
+    for key, (p, pname) in ph.items():
+        v = merged[key]
+        if key[0] == "n":
+            if isinstance(p, LoopList):
+                p.appended[:] = v
+                set_name(env, key[1], p)
+            else:
+                set_name(env, key[1], v)
+        else:
+            o, _orig = saved[key]
+            o.fields[key[2]] = v
 
 
 def _summarise_all(I, s, env, ph, saved, i, iname, n, names):
